@@ -2,11 +2,13 @@
 """Re-confirms every seeded change under /verif/seeded against the current /repo HEAD and the current checks, and rewrites
 seeded/<id>/meta.json and seeded/INDEX.md. Each change is applied in a scratch worktree (removed afterwards)."""
 import json, os, re, subprocess, sys
+from concurrent.futures import ThreadPoolExecutor
 rows=[]
 only=sys.argv[1:] 
-for pid in sorted(os.listdir('/verif/seeded')):
+def evalprop(pid):
+    rows=[]
     d='/verif/seeded/'+pid
-    if not os.path.isdir(d) or (only and pid not in only): continue
+    if not os.path.isdir(d) or (only and pid not in only): return rows
     meta={"property":pid,"changes":[]}
     for x in 'ABCDEFGHIJKL':
         if not os.path.exists(d+'/patch%s.diff'%x): continue
@@ -33,6 +35,10 @@ for pid in sorted(os.listdir('/verif/seeded')):
         rows.append((pid,x,ch))
         print(pid,x,ch.get("check"),flush=True)
     json.dump(meta,open(d+'/meta.json','w'),indent=1)
+    return rows
+with ThreadPoolExecutor(max_workers=4) as ex:
+    for r in ex.map(evalprop, sorted(os.listdir('/verif/seeded'))):
+        rows.extend(r)
 
 if not only:
     with open('/verif/seeded/INDEX.md','w') as f:
